@@ -11,6 +11,7 @@ CONSTANTS
   Tmo = {0, 2}
   Horizon = 0
   AllowFaults = FALSE
+  AllowCancel = FALSE
   AbstractTime = TRUE
   LeakSearchIdOnDone = FALSE
   AbandonKeepsTargetId = TRUE
